@@ -5,11 +5,12 @@ of the primitives that satisfies the stated laws (core Lean only).
 -/
 namespace DadiVerif.ModelDSL
 
-/-- the laws the normaliser relies on: `1*x = x*1 = x` for the scalars, and the integrators listed in `ints` return
+/-- the laws the normaliser relies on: `1*x = x*1 = x` and `x - 0 = x` for the scalars, and the integrators listed in `ints` return
     their input when `T = 0` and `initial_t = 0` (dadi/Integration.py: `if T - initial_t == 0: return phi`). -/
 structure Lawful (I : Interp) (ints : List Name) : Prop where
   mul_one_left : ∀ x, I.mul (I.lit 1 1) x = x
   mul_one_right : ∀ x, I.mul x (I.lit 1 1) = x
+  sub_zero : ∀ x, I.sub x (I.lit 0 1) = x
   zero_duration : ∀ fn, fn ∈ ints → ∀ (φ : I.Φ) (args : List (Name × Val I.S)),
       args.lookup (nm! "T") = some (.scalar (I.lit 0 1)) → args.lookup (nm! "initial_t") = some (.scalar (I.lit 0 1)) →
       I.step fn φ args = some φ
@@ -25,9 +26,16 @@ theorem scalarShape_mkMul (a b : Expr) : scalarShape (mkMul a b) = true := by
     · next h => exact h.2
     · rfl
 
+theorem scalarShape_mkSub (a b : Expr) : scalarShape (mkSub a b) = true := by
+  unfold mkSub
+  split
+  · next h => exact h.2
+  · rfl
+
 theorem scalarShape_simp (e : Expr) : scalarShape (simp e) = scalarShape e := by
   cases e <;> try rfl
   case mul a b => simp only [simp]; rw [scalarShape_mkMul]; rfl
+  case sub a b => simp only [simp]; rw [scalarShape_mkSub]; rfl
 
 include hI in
 theorem evalS_mkMul (τ : I.S) (a b : Expr) :
@@ -40,12 +48,20 @@ theorem evalS_mkMul (τ : I.S) (a b : Expr) :
     · rfl
 
 include hI in
+theorem evalS_mkSub (τ : I.S) (a b : Expr) :
+    evalS I ρ τ (mkSub a b) = I.sub (evalS I ρ τ a) (evalS I ρ τ b) := by
+  unfold mkSub
+  split
+  · next h => rw [h.1]; show _ = I.sub _ (I.lit 0 1); rw [hI.sub_zero]
+  · rfl
+
+include hI in
 theorem evalS_simp (τ : I.S) (e : Expr) : evalS I ρ τ (simp e) = evalS I ρ τ e := by
   induction e with
   | mul a b iha ihb => simp only [simp]; rw [evalS_mkMul hI]; simp only [evalS, iha, ihb]
   | neg e ih => simp only [simp, evalS, ih]
   | add a b iha ihb => simp only [simp, evalS, iha, ihb]
-  | sub a b iha ihb => simp only [simp, evalS, iha, ihb]
+  | sub a b iha ihb => simp only [simp]; rw [evalS_mkSub hI]; simp only [evalS, iha, ihb]
   | div a b iha ihb => simp only [simp, evalS, iha, ihb]
   | pow a b iha ihb => simp only [simp, evalS, iha, ihb]
   | call1 f e ih => simp only [simp, evalS, ih]
@@ -71,11 +87,12 @@ theorem evalTuple_simp (e : Expr) : evalTuple I ρ (simp e) = evalTuple I ρ e :
   | tcons h t _ iht => simp only [simp, evalTuple]; rw [evalS_simp hI, iht]
   | mul a b _ _ =>
       rw [evalTuple_of_scalarShape ρ _ (by rw [scalarShape_simp]; rfl)]; rfl
+  | sub a b _ _ =>
+      rw [evalTuple_of_scalarShape ρ _ (by rw [scalarShape_simp]; rfl)]; rfl
   | lam b _ => rfl
   | tnil => rfl
   | neg e _ => rfl
   | add a b _ _ => rfl
-  | sub a b _ _ => rfl
   | div a b _ _ => rfl
   | pow a b _ _ => rfl
   | call1 f e _ => rfl
@@ -195,6 +212,62 @@ theorem nestOK_sound {I : Interp} {tbl : List Model} {sigs : List Sig} (hI : Law
         have : ta = tb := by simpa using h
         subst this
         exact sem_eq_of_normalForm_eq hI ρ hna hnb
+
+/-! ## one branch of a model with `if`s -/
+
+/-- the comparisons along `path` come out as the path says (in interpretation `I`, valuation `ρ`) -/
+def PathHolds (I : Interp) (ρ : Name → I.S) : List Bool → Tr → Prop
+  | b :: bs, .ite c x y =>
+      I.cmp c.op (evalS I ρ (I.sym (nm! "t")) c.lhs) (evalS I ρ (I.sym (nm! "t")) c.rhs) = b
+        ∧ PathHolds I ρ bs (if b then x else y)
+  | _, _ => True
+
+theorem runTr_selectBranch {I : Interp} (ρ : Name → I.S) (path : List Bool) (t t' : Tr)
+    (hsel : selectBranch path t = some t') (hp : PathHolds I ρ path t) : runTr I ρ t = runTr I ρ t' := by
+  induction path generalizing t with
+  | nil => simp only [selectBranch, Option.some.injEq] at hsel; rw [hsel]
+  | cons b bs ih =>
+      cases t with
+      | leaf r => simp [selectBranch] at hsel
+      | ite c x y =>
+          simp only [selectBranch] at hsel
+          obtain ⟨hc, hrest⟩ := hp
+          conv => lhs; unfold runTr
+          rw [hc]
+          cases b with
+          | true => simpa using ih x hsel hrest
+          | false => simpa using ih y hsel hrest
+
+/-- `nestOKAt` is a sound test: whenever the comparisons along the path come out as stated, model `a` at `argsA` means what
+    model `b` at `argsB` means -/
+theorem nestOKAt_sound {I : Interp} {tbl : List Model} {sigs : List Sig} (hI : Lawful I (integrators sigs))
+    (ρ : Name → I.S) {a b : Name} {argsA argsB : List Expr} {path : List Bool}
+    (h : nestOKAt tbl sigs a argsA path b argsB = true) :
+    ∃ ta, normalForm tbl sigs a argsA = some ta ∧
+      (PathHolds I ρ path ta → sem I ρ tbl sigs a argsA = sem I ρ tbl sigs b argsB) := by
+  unfold nestOKAt at h
+  cases hna : normalForm tbl sigs a argsA with
+  | none => rw [hna] at h; cases h
+  | some ta =>
+    cases hnb : normalForm tbl sigs b argsB with
+    | none => rw [hna, hnb] at h; cases h
+    | some tb =>
+      rw [hna, hnb] at h
+      have hsel : selectBranch path ta = some tb := by simpa using h
+      refine ⟨ta, rfl, fun hp => ?_⟩
+      unfold normalForm at hna hnb
+      unfold sem
+      cases hsa : symbolicRun tbl sigs a argsA with
+      | none => rw [hsa] at hna; cases hna
+      | some ta0 =>
+        cases hsb : symbolicRun tbl sigs b argsB with
+        | none => rw [hsb] at hnb; cases hnb
+        | some tb0 =>
+          rw [hsa] at hna; rw [hsb] at hnb
+          simp only [Option.map_some, Option.some.injEq] at hna hnb
+          show runTr I ρ ta0 = runTr I ρ tb0
+          rw [← runTr_norm hI ρ ta0, ← runTr_norm hI ρ tb0, hna, hnb]
+          exact runTr_selectBranch ρ path ta tb hsel hp
 
 /-! ## the dimension checker -/
 
@@ -429,7 +502,7 @@ theorem runSteps_withFinishArgs (cs : List Call) (φ : I.Φ) :
       | some φ' => exact ih φ'
 
 theorem Lawful.withFinishArgs {ints : List Name} (hI : Lawful I ints) : Lawful (I.withFinishArgs f) ints :=
-  ⟨hI.mul_one_left, hI.mul_one_right, hI.zero_duration⟩
+  ⟨hI.mul_one_left, hI.mul_one_right, hI.sub_zero, hI.zero_duration⟩
 
 theorem keys_evalArgs (args : List (Name × Expr)) : (evalArgs I ρ args).map (·.1) = args.map (·.1) := by
   induction args with
